@@ -139,6 +139,10 @@ def run(ctx):
         n = int(rng.integers(1, 10))
         mass = 10 ** rng.uniform(0, 5, size=n)
         T = float(10 ** rng.uniform(0, 4))
+        if i % 4 >= 2:
+            # cold ensembles (down to 1e-9 K): the kinetic energies are tiny but the statement is the same
+            T = float(10 ** rng.uniform(-9, 0))
+            ctx.count("boltz:cold")
         scale = bool(i % 2)
         mseed = int(rng.integers(1, 2 ** 31))
         seed = int(rng.integers(1, 2 ** 31))
